@@ -370,7 +370,7 @@ PROPS = {
              "Method frames, messages with ': ' or frame-like text, blank lines, Unicode whitespace, CRLF, missing final "
              "newline); non-trivial = output differs from the input text",
              "all clauses proved"),
-    "C08": P(["C08_same_depth", "C08_node_by_node", "C08_typed_print_is_text", "C08_typed_print_is_text_b", "C08_typed_print_is_text_wf"],
+    "C08": P(["C08_same_depth", "C08_node_by_node", "C08_typed_print_is_text", "C08_typed_print_is_text_b", "C08_typed_print_is_text_wf", "C08_iterative_code", "C08_levels_preserved"],
              "Theorems: typed remapping preserves the cause-chain depth, maps node by node (exception remapped or kept, "
              "each frame replaced by its remapped frames or kept), and for canonical printed traces printing the typed "
              "result equals the text API's output. Mapper and cache are compared with the model, and the property's own "
@@ -401,7 +401,7 @@ PROPS = {
              "strings; non-trivial = descriptor accepted",
              "all clauses proved"),
     "C17": P(["C17_frame_roundtrip", "C17_throwable_roundtrip", "C17_trace_roundtrip", "C17_reprint_same_text",
-              "C17_throwable_condition"],
+              "C17_throwable_condition", "C17_print_loop"],
              "Theorems: parse(print t) = t and print(parse(print t)) = print t for every well-formed trace of any depth "
              "and frame count, and for single frames and throwables. The implementation builds the trace through the "
              "public constructors, prints, parses and reprints; text and round-trip flags are compared with the model.",
